@@ -189,12 +189,12 @@ pub fn run_tokio(sc: &StreamScenario) -> StreamOutcome {
         .build()
         .expect("runtime");
 
-    let link = Arc::new(Mutex::new(LinkState::new(
-        true,
-        sc.inbound.clone(),
-        &sc.reads,
-        &sc.writes,
-    )));
+    let link = Arc::new(Mutex::new({
+        let mut l = LinkState::new(true, sc.inbound.clone(), &sc.reads, &sc.writes);
+        l.flushes = sc.flushes.iter().cloned().collect();
+        l.buffered = sc.buffered;
+        l
+    }));
     let l2 = link.clone();
 
     rt.block_on(async move {
